@@ -4,11 +4,12 @@ import nodecheck
 PROFILE = dict(outbound=0.6, peers=3)
 W = nodecheck.weights(app_request=8, answer_request=7, odd_answer=3, tick=5, cea=10, conndone=8, cer=8, close=1.5, dpr=1)
 N_QUICK, N_THOROUGH, LENGTH = 60, 1500, 24
+THEMES = (("ready", 2, 60, 2, 3000),)
 FILES = ["Props/C10.v"]
 
 
 def check(run):
-    return nodecheck.run(run, "C10", FILES, PROFILE, W, N_QUICK, N_THOROUGH, LENGTH)
+    return nodecheck.run(run, "C10", FILES, PROFILE, W, N_QUICK, N_THOROUGH, LENGTH, themes=THEMES)
 
 
 replay = nodecheck.replay_generic
